@@ -1,0 +1,48 @@
+//go:build verif
+
+// Package verifhook provides yield points for the verification harness in /verif.
+// With the `verif` build tag a controller can be installed that is called at every yield point;
+// with no controller installed Yield does nothing.
+package verifhook
+
+import (
+	"bytes"
+	"runtime"
+	"strconv"
+	"sync/atomic"
+)
+
+type handlerFn func(point string)
+
+var handler atomic.Pointer[handlerFn]
+
+// Set installs (or with nil removes) the controller called at every yield point.
+func Set(f func(point string)) {
+	if f == nil {
+		handler.Store(nil)
+		return
+	}
+	h := handlerFn(f)
+	handler.Store(&h)
+}
+
+// Yield marks a point at which the verification harness may pause the calling goroutine.
+func Yield(point string) {
+	if h := handler.Load(); h != nil {
+		(*h)(point)
+	}
+}
+
+// GoID returns the id of the calling goroutine (parsed from the stack header), so that a
+// controller can tell the logical threads it started apart.
+func GoID() int64 {
+	var buf [64]byte
+	n := runtime.Stack(buf[:], false)
+	// "goroutine 123 [running]:..."
+	b := bytes.TrimPrefix(buf[:n], []byte("goroutine "))
+	if i := bytes.IndexByte(b, ' '); i > 0 {
+		id, _ := strconv.ParseInt(string(b[:i]), 10, 64)
+		return id
+	}
+	return -1
+}
